@@ -32,7 +32,9 @@ RULE = ("scenarios over 2-3 real nodes: (a) every node seeded with records of al
         "(K-2, K-1, K, K+1, ...); (g) an advertiser whose range is exactly on / one off the distance of its r-th "
         "nearest routing-table peer (r around CLOSE_GROUP_SIZE+1, family edge); (h) two versions of a mutable "
         "record handed to / fetched by a node that did not hold it while the store's AddLocalRecordAsStored "
-        "follow-up is held back, both orders (family window). A case is distinct/non-trivial by (family, number of nodes, number of "
+        "follow-up is held back, both orders (family window); (i) a store above MAX_RECORDS_COUNT/10 records that "
+        "runs its irrelevant-record clean-up before a list arrives (family bigstore); (j) failing disk writes at "
+        "the receiver, repaired, records re-offered (family diskfail). A case is distinct/non-trivial by (family, number of nodes, number of "
         "effective steps, set of message kinds delivered, whether a fetch stored something, whether stores "
         "ended equal)")
 ASSUMPTIONS = [
@@ -199,7 +201,8 @@ def model_term(c, o):
             if n.get("rt") != prev_state[i].get("rt"):
                 sets.append("(OSetTable %s %s)" % (cN(i), table_term(i, n, pd)))
         prev_state = before
-        if e.get("op") == "hold_local":
+        if e.get("op") in ("hold_local", "break_disk"):
+            # (break_disk: failed disk writes -- a put that is taken back -- are not in the model either)
             # the model does not carry the store's index / cache split: the comparison ends where the case
             # starts holding back AddLocalRecordAsStored (the oracle judges the rest of the run)
             break
@@ -318,6 +321,9 @@ def oracle(c, o):
     prev_idx = None
     prev_state = None
     cand_reported = set()
+    holding = set()               # nodes whose AddLocalRecordAsStored commands the case is holding back
+    broken = set()                # nodes whose disk writes the case makes fail
+    unlisted_reported = set()
     wanted_from = {}      # (node, key) -> holders a fetch of key was scheduled or queued for
     fetched_from = set()  # (node, key, holder): a fetch that was actually delivered to the holder
     any_drop = False
@@ -359,6 +365,24 @@ def oracle(c, o):
                 got = sorted(json.dumps(x, sort_keys=True) for x in m["keys"])
                 if got != mine or m["holder"] != i:
                     v.append(("advert-incomplete", "step %d: node %d advertised %s but holds %s" % (si, i, got, mine)))
+        if e.get("op") == "hold_local":
+            holding.add(e["node"])
+        if e.get("op") == "release_local":
+            holding.discard(e["node"])
+        if e.get("op") == "break_disk":
+            broken.add(e["node"])
+        if e.get("op") == "fix_disk":
+            broken.discard(e["node"])
+        # a node must not serve (RecordStore::get, hence GetReplicatedRecord) a record its index does not list --
+        # it would never advertise it -- except while the store's own follow-up command is being held back
+        for j, n in enumerate(st):
+            if j in holding:
+                continue
+            for h in n["held"]:
+                if h.get("unindexed") and (j, json.dumps(h["key"], sort_keys=True)) not in unlisted_reported:
+                    unlisted_reported.add((j, json.dumps(h["key"], sort_keys=True)))
+                    v.append(("serves-unlisted-record", "step %d: node %d serves %s from its store although its index (what it advertises, what add_keys treats as held) does not list it%s"
+                              % (si, j, json.dumps(h["key"], sort_keys=True), " -- its disk write had failed" if any("write_failed" in x for s2 in steps[:si + 1] for x in s2["log"]) else "")))
         # the helper's answer against the independently computed closest-K set
         for j, n in enumerate(st):
             want_ck = expected_closest(j, n, pd)
@@ -418,7 +442,7 @@ def oracle(c, o):
                 j, h = m["from"], m["to"]
                 k = json.dumps(m["key"], sort_keys=True)
                 served = pheld[h].get(k)
-                if served is not None:
+                if served is not None and j not in broken:
                     want = merge_expected(pheld[j].get(k, (None,))[0] if k in pheld[j] else None, served[0])
                     got = held[j].get(k, (None, None))[0]
                     if got != want:
@@ -432,7 +456,9 @@ def oracle(c, o):
             i = e["node"]
             cc, ok = body_canon(e["body"], names)
             k = json.dumps(e["key"], sort_keys=True)
-            if ok and e.get("keyok", True):
+            if i in broken:
+                pass
+            elif ok and e.get("keyok", True):
                 want = merge_expected(pheld[i][k][0] if k in pheld[i] else None, cc)
                 got = held[i].get(k, (None,))[0]
                 if got != want:
@@ -459,7 +485,7 @@ def oracle(c, o):
                 if a == b or b not in expected_candidates(a, fin[a], pd, store_range[a]) or a not in expected_closest(b, fin[b], pd):
                     continue
                 ha = {json.dumps(h["key"], sort_keys=True): canon(h["content"], names) for h in fin[a]["held"]}
-                hb = {json.dumps(h["key"], sort_keys=True): canon(h["content"], names) for h in fin[b]["held"]}
+                hb = {json.dumps(h["key"], sort_keys=True): canon(h["content"], names) for h in fin[b]["held"] if not h.get("unindexed")}
                 for k, ca in ha.items():
                     if k not in hb:
                         # only an IN-RANGE neighbour has to take the record: every time a close peer's list offered
@@ -776,6 +802,31 @@ def gen_bigstore(rng, idx, count=None):
     return {"kind": "bigstore", "nodes": nodes, "ops": ops, "full_rounds": 0}
 
 
+def gen_diskfail(rng, idx):
+    """node 1's disk writes fail while it takes up node 0's records (the store takes each put back:
+    RemoveFailedLocalRecord); the disk is repaired and the neighbour offers the records again in later rounds:
+    node 1 must end up holding (index + store) every one of them, and must never serve a record it does not list"""
+    nodes = rng.sample(range(1, 60), 2)
+    ops = connects(2, rng, True)
+    recs = [rec_chunk(idx * 10 + j) for j in range(rng.randint(1, 3))]
+    if rng.random() < 0.4:
+        recs[0] = rec_pad(rng.randint(1, 30), 1, 1)
+    for r in recs:
+        ops.append(seed(0, r))
+    ops.append({"op": "break_disk", "node": 1})
+    if rng.random() < 0.5:
+        ops.append(seed(1, recs[0]))
+    ops.append({"op": "replicate", "node": 0})
+    ops.append({"op": "run", "picks": [rng.randrange(0, 3)]})
+    ops.append({"op": "fix_disk", "node": 1})
+    rounds = rng.randint(1, 2)
+    for _ in range(rounds):
+        ops.append({"op": "replicate", "node": 0})
+        ops.append({"op": "replicate", "node": 1})
+        ops.append({"op": "run", "picks": [rng.randrange(0, 3)]})
+    return {"kind": "diskfail", "nodes": nodes, "ops": ops, "full_rounds": rounds}
+
+
 def gen_edge(rng, idx):
     """the ADVERTISER's responsible range sits exactly on / one below / one above the distance of its r-th
     nearest routing-table peer (r around CLOSE_GROUP_SIZE .. +2, as the density tick sets it: the distance
@@ -896,10 +947,10 @@ def gen_saturated(rng, idx):
 
 def gen(ctx):
     rng = ctx.rng
-    n = 126 if ctx.tier == "quick" else 2240
+    n = 135 if ctx.tier == "quick" else 2250
     cases = []
     fams = [gen_missing, gen_missing, gen_divergent, gen_adverts, gen_partial, gen_ranged, gen_crowded, gen_midflight,
-            gen_saturated, gen_regrow, gen_regrow, gen_crowded, gen_edge, gen_window]
+            gen_saturated, gen_regrow, gen_regrow, gen_crowded, gen_edge, gen_window, gen_diskfail]
     for i in range(n):
         f = fams[i % len(fams)]
         cases.append(f(rng, 100 + i))
